@@ -152,6 +152,7 @@ class TFLiteSubgraph:
             op.set_output_tensor(tens)
             self.virtual_outputs.append(tens)
 
+        bias_input_added = False
         if op.type.is_depthwise_conv2d_op() or op.type.is_conv2d_op() or op.type == Op.FullyConnected:
             # Reshape and add bias for ops with constant weights
             # Do not modify ops with dynamic data since they will run on CPU
@@ -164,6 +165,7 @@ class TFLiteSubgraph:
                 if op.type.needs_bias() and len(inputs) <= op_type.info.indices.biases[0]:
                     # No Bias tensor
                     inputs.append(None)
+                    bias_input_added = True
                 if inputs[-1] and inputs[-1].values is not None:
                     # Since bias tensor is used for both bias and scale,
                     # a clone with a unique equivalence_id is needed.
@@ -171,6 +173,9 @@ class TFLiteSubgraph:
 
         if opt_serializer is not None:
             op.attrs = opt_serializer.deserialize(op_data)
+            if bias_input_added:
+                # Remembered so that the operator is written back with its original inputs if it stays on the CPU
+                op.attrs["bias_input_added"] = True
 
             if op_type == Op.While:
                 # Attach the actual nng subgraphs to the op
